@@ -462,6 +462,13 @@ func (a *advAIO) EnqueueSQE(sqe *bus.SQE[t_aio.Submission, t_aio.Completion]) {
 		if sqe.Submission.Kind == t_aio.Router {
 			s.mon.routerFailed[sqe.Submission.Router.Promise.Id] = true
 		}
+		if sqe.Submission.Kind == t_aio.Sender {
+			// a refused sender submission is a failed hand-off attempt
+			tk := sqe.Submission.Sender.Task
+			sm := &SentMsg{Tick: s.now, Ev: s.nextEv(), Plugin: "", Outcome: "error", TaskId: tk.Id, Counter: tk.Counter}
+			s.sent = append(s.sent, sm)
+			s.mon.sends[tk.Id] = append(s.mon.sends[tk.Id], sm)
+		}
 		s.logf("AIO  refuse(queue full) %s %s", p.ReqId(), subString(sqe.Submission))
 		sqe.Callback(nil, t_api.NewError(t_api.StatusAIOSubmissionQueueFull, nil))
 		return
